@@ -527,9 +527,12 @@ class ImmutableVersion(dns.zone.Version):
                 len(origin),
             )
             right_key = None
-        closest_encloser = dns.name.Name(
-            name[-max(left_comparison[2], right_comparison[2]) :]
-        )
+        common = max(left_comparison[2], right_comparison[2])
+        if common > 0:
+            closest_encloser = dns.name.Name(name[-common:])
+        else:
+            # No labels in common: the closest encloser is the relativized origin.
+            closest_encloser = dns.name.empty
         return Bounds(
             name,
             left.key(),
